@@ -73,7 +73,7 @@ Print Assumptions C08_h2_errors_identify.
 (* once the context has ended neither the caller nor the doRequest goroutine can be stuck *)
 Theorem C08_h2_cancel_progress : forall hb s, reach2 hb s -> (exists c, ctx2 s = Some c) ->
   (returned2 s = false -> exists l, In l [JResp; JAbort; JCtx; JDone; JDoneCtx; KCtx; KAbort; KPeerEnd] /\ step2 hb s l <> None) /\
-  (exited2 s = false -> returned2 s = false -> exists l, In l [KCtx; KAbort; KPeerEnd; JCtx] /\ step2 hb s l <> None).
+  (exited2 s = false -> exists l, In l [KCtx; KAbort; KPeerEnd; KCtxAbort] /\ step2 hb s l <> None).
 Proof. exact h2_cancel_progress. Qed.
 Print Assumptions C08_h2_cancel_progress.
 
